@@ -200,6 +200,8 @@ pub struct GenOpts {
     /// percentage of statements that are plain scans
     pub w_scan: u32,
     pub w_join: u32,
+    /// chance that an aggregate statement gets MIN + MAX + COUNT(DISTINCT) appended (0 = never)
+    pub mixed_agg_list_pct: u32,
     pub w_agg: u32,
     pub w_distinct: u32,
     pub w_union: u32,
@@ -238,6 +240,7 @@ impl Default for GenOpts {
             self_join_pct: 20,
             w_scan: 25,
             w_join: 25,
+            mixed_agg_list_pct: 0,
             w_agg: 35,
             w_distinct: 15,
             w_union: 0,
@@ -610,6 +613,29 @@ impl<'a> SG<'a> {
                 let a = self.fresh("c");
                 items.push(Item::Expr(e, Some(a.clone())));
                 out.push((a, ty));
+            }
+            // an aggregate list that mixes kinds of accumulator state (MIN/MAX next to
+            // COUNT(DISTINCT ..)): such a list cannot take the vectorized paths and goes through
+            // the row-at-a-time hash aggregate with its per-chunk partial states and merge
+            if self.o.mixed_agg_list_pct > 0 && self.t.chance(self.o.mixed_agg_list_pct) {
+                let mm: Vec<SCol> = cols.iter().filter(|c| c.spec.ty != ColType::Bool && !(c.spec.ty == ColType::Str && joined)).cloned().collect();
+                let cd: Vec<SCol> = cols.iter().filter(|c| c.spec.ty != ColType::Double).cloned().collect();
+                if !mm.is_empty() && !cd.is_empty() {
+                    self.feat("mixed_agg_list");
+                    // prefer a nullable MIN/MAX argument: partial states that have seen only NULLs
+                    let nullable: Vec<SCol> = mm.iter().filter(|c| c.spec.null_pct > 0).cloned().collect();
+                    let pool = if nullable.is_empty() { mm } else { nullable };
+                    for f in [AggF::Min, AggF::Max] {
+                        let c = pool[self.t.pick(pool.len())].clone();
+                        let a = self.fresh("c");
+                        items.push(Item::Expr(Expr::agg(f, cex(&c)), Some(a.clone())));
+                        out.push((a, c.spec.ty));
+                    }
+                    let c = cd[self.t.pick(cd.len())].clone();
+                    let a = self.fresh("c");
+                    items.push(Item::Expr(Expr::Agg { f: AggF::Count, arg: Some(Box::new(cex(&c))), distinct: true }, Some(a.clone())));
+                    out.push((a, ColType::Int));
+                }
             }
             let having = if self.o.having && !keys.is_empty() && self.t.chance(25) {
                 self.feat("having");
